@@ -150,9 +150,18 @@ func Verif_C30_sequence() {
 		}
 		return false
 	}
+	// plain Get consults the configured number of most recent active persisters
+	isActiveForGet := func(e uint32) bool {
+		for i, pd := range ps.activePersisters {
+			if uint32(i) < numActive && pd.epoch == e {
+				return true
+			}
+		}
+		return false
+	}
 	steps := verifParam("steps")
 	for s := 0; s < steps; s++ {
-		op := verifChoice("op", 5)
+		op := verifChoice("op", 5+verifParam("stuckShard"))
 		k := verifChoice("key", nk)
 		switch op {
 		case 0: // Put into the put-epoch (current epoch)
@@ -178,6 +187,14 @@ func Verif_C30_sequence() {
 			}
 		case 3:
 			ps.ClearCache()
+		case 5: // epoch change announced by a meta block that reports a shard stuck in an older epoch:
+			// the older epochs stay active beyond the configured number of active persisters
+			cur++
+			oldest := uint32(verifChoice("stuckEpoch", int(cur)))
+			mb := &block.MetaBlock{Epoch: cur, EpochStart: block.EpochStart{LastFinalizedHeaders: []block.EpochStartShardData{{Epoch: oldest}}}}
+			verifAssert(ps.changeEpoch(mb) == nil, "change epoch (stuck shard) ok")
+			ps.SetEpochForPutOperation(cur)
+			inEpoch[cur] = make([]bool, nk)
 		case 4: // epoch change
 			cur++
 			verifAssert(ps.changeEpoch(&block.Header{Epoch: cur}) == nil, "change epoch ok")
@@ -186,9 +203,11 @@ func Verif_C30_sequence() {
 		}
 		// observations after every step, for every key
 		for j := 0; j < nk; j++ {
-			if plainPutEpoch[j] >= 0 && isActive(uint32(plainPutEpoch[j])) {
+			if plainPutEpoch[j] >= 0 && isActiveForGet(uint32(plainPutEpoch[j])) {
 				g, err := ps.Get(keys[j])
 				verifAssert(err == nil && len(g) == 1 && g[0] == vals[j][0], "value put in an active epoch is readable through Get")
+			}
+			if plainPutEpoch[j] >= 0 && isActive(uint32(plainPutEpoch[j])) {
 				verifAssert(ps.Has(keys[j]) == nil, "value put in an active epoch is reported by Has")
 				sf, err2 := ps.SearchFirst(keys[j])
 				verifAssert(err2 == nil && len(sf) == 1 && sf[0] == vals[j][0], "value put in an active epoch is found by SearchFirst")
@@ -200,7 +219,15 @@ func Verif_C30_sequence() {
 					verifAssert(err == nil && len(g) == 1 && g[0] == vals[j][0], "value put in a retained epoch is readable through GetFromEpoch")
 				}
 			}
-			if removed[j] {
+			// an older epoch that still holds the key (it was not active when the key was removed) may have been
+			// re-activated for a stuck shard: then the key is legitimately found again
+			heldByActive := false
+			for e := uint32(0); e <= cur; e++ {
+				if isActive(e) && inEpoch[e][j] {
+					heldByActive = true
+				}
+			}
+			if removed[j] && !heldByActive {
 				_, err := ps.Get(keys[j])
 				verifAssert(err != nil, "removed key is not returned by Get")
 				verifAssert(ps.Has(keys[j]) != nil, "removed key is not reported by Has")
